@@ -28,6 +28,7 @@ RULE = (
     "import > earlier import) is accepted.  Non-trivial = a lower-bound (negative) fault, or one that becomes known "
     "only after override / substitution, or a precedence case. distinct = (text, overrides)."
     " builder-body: a call of a native gate with a surplus qubit / surplus number / missing argument / wrong kind, or of an unknown gate, inside a CircuitBuilder loop, nested loop or macro body evaluated on its own (and at top level), in a circuit with or without a let: refused by build() or at the latest by run_jaqal_circuit; the fitting twin runs.  Kind faults include a subcircuit count that names a register, alias or qubit (literally and through a macro argument)."
+    " qsyntax-values (exhaustive): through Q-syntax, an index / a let used as index / a register size / a let used as size that is out of range, fractional, nan, +-inf, None, a string, a slice or 10**30 is refused with JaqalError (when the function becomes a circuit, or - let-valued - by fill_in_let)."
 )
 ASSUMPTIONS = ["an empty alias (stop == start) is not treated as a fault; 'reversed' slices are not injected (the property only names slices reaching outside the source)"]
 
@@ -843,11 +844,80 @@ def builder_body(case):
     return {"nontrivial": True, "classes": classes + ["refused-at:" + stage], "key": repr(case)}
 
 
+_QBAD = ["size", "size+1", "-1", "1.5", "nan", "inf", "-inf", "none", "str", "slice", "huge"]
+
+
+def _q_enum(tier):
+    for where in ("index", "let-index", "register-size", "let-size", "good"):
+        for bad in _QBAD:
+            for n in (1, 3):
+                yield {"where": where, "bad": bad, "n": n}
+
+
+def qsyntax_values(case):
+    """The same faults through Q-syntax: an index, a register size or a let used as one that is
+    out of range or no finite integer at all (nan, inf, None, a string, a slice) is refused with
+    JaqalError when the function is turned into a circuit - no other exception, no circuit."""
+    from jaqalpaq.qsyntax import circuit
+
+    n, where, bad = case["n"], case["where"], case["bad"]
+    if where not in ("index", "let-index", "register-size", "let-size", "good") or bad not in _QBAD or not (1 <= n <= 6):
+        raise Skip()
+    v = {"size": n, "size+1": n + 1, "-1": -1, "1.5": 1.5, "nan": float("nan"), "inf": float("inf"), "-inf": float("-inf"), "none": None, "str": "a", "slice": slice(0, 1), "huge": 10**30}[bad]
+    if where in ("register-size", "let-size") and bad in ("size", "size+1", "huge"):
+        raise Skip()  # legal sizes
+    if where in ("let-index", "let-size") and bad in ("none", "str", "slice"):
+        raise Skip()  # not a let value at all: the let itself is outside this part
+
+    @circuit
+    def prog(Q):
+        if where == "good":
+            k = Q.let(n - 1, "k")
+            r = Q.register(n, "r")
+            Q.G(r[k], r[0])
+        elif where == "index":
+            r = Q.register(n, "r")
+            Q.G(r[v])
+        elif where == "let-index":
+            k = Q.let(v, "k")
+            r = Q.register(n, "r")
+            Q.G(r[k])
+        elif where == "register-size":
+            r = Q.register(v, "r")
+            Q.G(r[0])
+        else:
+            k = Q.let(v, "k")
+            r = Q.register(k, "r")
+            Q.G(r[0])
+
+    st_, c = guard(prog, what="Q-syntax circuit")
+    if where == "good":
+        if st_ == "err":
+            raise Violation("valid-twin-rejected", f"{c}", where="qsyntax")
+        return {"nontrivial": False, "classes": ["where:good"], "key": repr(case)}
+    stage = "build"
+    if st_ == "ok" and where in ("let-index", "let-size"):
+        # the value of a let becomes known when lets are substituted (as in text)
+        from jaqalpaq.core.algorithm import fill_in_let
+
+        c0 = c
+        st_, c = guard(fill_in_let, c0, what="fill_in_let")
+        stage = "let"
+        if st_ == "ok":
+            c = c0
+    if st_ == "ok":
+        from ..common import generate
+
+        raise Violation("invalid-definition-accepted", f"Q-syntax: {where} = {v!r} on a register of {n} accepted\nbuilt: {generate(c)}", where="qsyntax:" + where)
+    return {"nontrivial": True, "classes": ["where:" + where, "value:" + bad, "refused-at:" + stage], "key": repr(case)}
+
+
 def parts():
     return [
         Part("references", gen.cases(_ref_case), references, quick=5000, thorough=120000, min_nontrivial=0.3),
         Part("definitions", gen.cases(_def_case), definitions, quick=2000, thorough=40000, min_nontrivial=0.1),
         Part("precedence", None, precedence, quick=0, thorough=0, exhaustive=_prec_enum, shards=4),
         Part("builder-api", gen.cases(_builder_case), builder_api, quick=600, thorough=8000, min_nontrivial=0.3),
+        Part("qsyntax-values", None, qsyntax_values, quick=0, thorough=0, exhaustive=_q_enum, shards=1),
         Part("builder-body", gen.cases(_body_case), builder_body, quick=600, thorough=8000, min_nontrivial=0.3),
     ]
